@@ -252,18 +252,24 @@ theorem collectMerged_sim (hf : FragsOK c vars') (ot : String) : ∀ (nodes node
 
 def Uniform (nodes : List FieldNode) : Prop := ∀ h, nodes.head? = some h → ∀ n ∈ nodes, n.name = h.name
 
-/-- hereditary uniformity to nesting depth `k`, for the ORIGINAL request -/
+/-- hereditary uniformity to nesting depth `k`, for the ORIGINAL request. The runtime types `ot` at which a merged
+sub-selection is examined are those the executor can reach: the field's own type when it is an object type, a POSSIBLE
+object type of it when it is abstract (the executor checks `isObject ot && isPossibleType N ot` before descending). -/
 def HU : Nat → String → Groups → Prop
   | 0, _, _ => True
   | k + 1, rt, g => ∀ p ∈ g, Uniform p.2 ∧
       ∀ h fd, p.2.head? = some h → fieldDef? c.schema rt h.name = some fd →
         ∀ ot, (c.schema.isObject fd.type.namedName = true → ot = fd.type.namedName) →
+          (c.schema.isAbstract fd.type.namedName = true →
+            c.schema.isObject ot = true ∧ c.schema.isPossibleType fd.type.namedName ot = true) →
           HU k ot (collectMerged c ot p.2)
 
 def HUAll (rt : String) (g : Groups) : Prop := ∀ k, HU c k rt g
 
 def HSub (N : String) (nodes : List FieldNode) : Prop :=
-  ∀ ot, (c.schema.isObject N = true → ot = N) → HUAll c ot (collectMerged c ot nodes)
+  ∀ ot, (c.schema.isObject N = true → ot = N) →
+    (c.schema.isAbstract N = true → c.schema.isObject ot = true ∧ c.schema.isPossibleType N ot = true) →
+    HUAll c ot (collectMerged c ot nodes)
 
 def SubRel (N : String) (nodes nodes' : List FieldNode) : Prop :=
   All2 (fun n n' => ∀ T, (c.schema.isObject N = true → T = N) → RO c vars' T n.sel n'.sel) nodes nodes'
@@ -276,8 +282,8 @@ theorem HUAll.tail {rt : String} {p : String × List FieldNode} {g : Groups} (h 
 
 theorem HUAll.head {rt : String} {p : String × List FieldNode} {g : Groups} (h : HUAll c rt (p :: g)) :
     Uniform p.2 ∧ ∀ hd fd, p.2.head? = some hd → fieldDef? c.schema rt hd.name = some fd → HSub c fd.type.namedName p.2 := by
-  refine ⟨((h 1) p List.mem_cons_self).1, fun hd fd hh hfd ot hot k => ?_⟩
-  exact ((h (k + 1)) p List.mem_cons_self).2 hd fd hh hfd ot hot
+  refine ⟨((h 1) p List.mem_cons_self).1, fun hd fd hh hfd ot hot hab k => ?_⟩
+  exact ((h (k + 1)) p List.mem_cons_self).2 hd fd hh hfd ot hot hab
 
 theorem subRel_of_nodeRel {rt : String} {fd : FieldDefS} : ∀ {nodes nodes' : List FieldNode},
     All2 (NodeRel c vars' rt) nodes nodes' → (∀ n ∈ nodes, fieldDef? c.schema rt n.name = some fd) →
@@ -592,7 +598,9 @@ theorem sim_step (hf : FragsOK c vars') (fuel : Nat) (ih : SimAt c vars' fuel) :
                   have hot : c.schema.isObject n = true → ot = n := by
                     intro ho; rw [isObject_of_abstract hab] at ho; cases ho
                   have hgr := collectMerged_sim c vars' hf ot nodes nodes' (subRel_at c vars' hot hsr)
-                  rw [ihG dfr ot v p _ _ [] st hgr (hsub ot hot)]
+                  have hpo : c.schema.isObject ot = true ∧ c.schema.isPossibleType n ot = true := by
+                    simpa using hposs
+                  rw [ihG dfr ot v p _ _ [] st hgr (hsub ot hot (fun _ => hpo))]
             · simp only [hab, Bool.false_eq_true, if_false]
               by_cases hob : c.schema.isObject n = true
               · simp only [hob, if_true]
@@ -601,7 +609,7 @@ theorem sim_step (hf : FragsOK c vars') (fuel : Nat) (ih : SimAt c vars' fuel) :
                 · simp only [hito, Bool.false_eq_true, if_false]
                   have hot : c.schema.isObject n = true → n = n := fun _ => rfl
                   have hgr := collectMerged_sim c vars' hf n nodes nodes' (subRel_at c vars' hot hsr)
-                  rw [ihG dfr n v p _ _ [] st hgr (hsub n hot)]
+                  rw [ihG dfr n v p _ _ [] st hgr (hsub n hot (fun ha => absurd (show c.schema.isAbstract n = true from ha) hab))]
               · simp only [hob, Bool.false_eq_true, if_false]
     · -- thunk / badFunc
       cases v with
